@@ -28,7 +28,8 @@ class Layout:
     """
 
     def __init__(self, pre, indent, ncomment, tagline, tagpad, attrs, trail0, lines, last, name='blk',
-                 base_line=1, base_off=0, tail=True):
+                 base_line=1, base_off=0, tail=True, stars=1):
+        self.stars = stars          # decorative stars: `/**` ... ` **` ... (banner-style comments)
         self.pre = pre
         self.indent = indent
         self.ncomment = ncomment
@@ -63,11 +64,11 @@ class Layout:
             emit(b'code%d();\n' % i)
         emit(b' ' * self.indent)
         self.c_start = (base + len(out), line, col)
-        emit(b'/*')
+        emit(b'/' + b'*' * self.stars)
         tag = b'<block name="%s"%s>' % (self.name.encode(), self.attrs.encode() if isinstance(self.attrs, str) else self.attrs)
         for k in range(self.ncomment):
             if k > 0:
-                emit(b'\n' + b' ' * self.indent + b' *')
+                emit(b'\n' + b' ' * self.indent + b' ' + b'*' * self.stars)
             if k == self.tagline:
                 emit(b' ' * (1 + self.tagpad))
                 self.tag_lt = (base + len(out), line, col)
